@@ -663,6 +663,11 @@ class SyncObj(object):
     def __applyLogEntries(self):
         needSendAppendEntries = False
 
+        if self.__enabledCodeVersion > self.__selfCodeVersion:
+            # The loaded state was produced with a code version this node does not have
+            # (snapshot from an upgraded cluster): do not apply anything with the wrong code
+            return needSendAppendEntries
+
         if self.__raftCommitIndex > self.__raftLastApplied:
             count = self.__raftCommitIndex - self.__raftLastApplied
             entries = self.__getEntries(self.__raftLastApplied + 1, count)
